@@ -12,6 +12,9 @@ HERE = os.path.join(VERIF, "apisim")
 PROP = "C17"
 ENV = {"UBSAN_OPTIONS": "exitcode=78:print_stacktrace=0:silence_unsigned_overflow=1"}
 TWIN = None
+# address reuse: with ASan's quarantine switched off a freed handle's memory is handed out again at once, which is
+# what lets state keyed on a handle's address (in the wrappers or the library) meet a different model
+ENV_R = dict(ENV, ASAN_OPTIONS="quarantine_size_mb=0:thread_local_quarantine_size_kb=0")
 ENV_A = dict(ENV, ASAN_OPTIONS="malloc_fill_byte=190:max_malloc_fill_size=65536")
 ENV_Z = dict(ENV, ASAN_OPTIONS="malloc_fill_byte=0:max_malloc_fill_size=65536")
 
@@ -46,6 +49,13 @@ def main(a):
             x = orch.exec_plan(binary, rep["ops"], ENV_A)
             y = orch.exec_plan(TWIN, rep["ops"], ENV_Z)
             r = {"sig": "uninitialised_value" if x["hash"] != y["hash"] else "OK", "detail": ["pattern build hash %s, zero build hash %s" % (x["hash"], y["hash"])]}
+        elif str(rep.get("engine", "")).endswith("-cmds"):
+            env = ENV_R if "reuse" in rep.get("engine") else ENV
+            found = orch.exec_commands(binary, rep["commands"], env)
+            got = [sg for rn, sg in found if rn == rep.get("run_index") and orch.same_violation(sg, rep.get("signature"))]
+            r = {"sig": got[0] if got else "OK", "detail": ["%d candidate(s) reported by the re-issued commands" % len(found)]}
+        elif rep.get("engine") == "apisim-reuse":
+            r = orch.replay_file(binary, a.replay, ENV_R)
         else:
             r = orch.replay_file(binary, a.replay, ENV)
         want = rep.get("signature")
@@ -119,6 +129,10 @@ def main(a):
     c0 = sorted((c["run"], c["sig"]) for c in rnd["candidates"] if c["run"] < ngate)
     gate_diff = (c1 != c0 and not (g1["stopped_early"] or rnd.get("stopped_early")))
 
+    # 3a. address reuse: the first histories again with ASan's quarantine off (freed handle memory is reused at once)
+    nreuse = 6000 if a.tier == "quick" else 300000
+    reuse = orch.run_batch(binary, "RUNS", a.seed, 0, nreuse, nw, ENV_R, chunk=250)
+
     # 3b. uninitialised-memory twins: the sweep and a sample of the histories again in two builds whose
     # uninitialised stack and fresh heap contents differ (pattern vs. zero); every result of every call is in
     # the event-log hash, so any difference means a value computed from uninitialised memory crossed the API
@@ -169,7 +183,18 @@ def main(a):
         return out
 
     try:
-        viol, known_hits, herr = orch.process_candidates(PROP, "apisim", binary, cands, get_plan, ENV, context_plan=context_plan)
+        def context_cmds(c):
+            return [("SWEEP %d %d" % (a0, n0)) if c["kind"] == "sweep" else ("RUNS %d %d %d" % (c["seed"], a0, n0)) for a0, n0 in c["ctx"][:-1]] + \
+                   [("SWEEP %d %d" % (c["ctx"][-1][0], c["ctx"][-1][1] + 1)) if c["kind"] == "sweep" else ("RUNS %d %d %d" % (c["seed"], c["ctx"][-1][0], c["ctx"][-1][1] + 1))]
+
+        viol, known_hits, herr = orch.process_candidates(PROP, "apisim", binary, cands, get_plan, ENV, context_plan=context_plan, context_cmds=context_cmds)
+        main_sigs = set(c["sig"] for c in cands)
+        rc = [dict(c, kind="random", seed=a.seed) for c in reuse["candidates"] if c["sig"] not in main_sigs]
+        if rc:
+            v2, k2, h2 = orch.process_candidates(PROP, "apisim-reuse", binary, rc, get_plan, ENV_R, context_plan=context_plan, context_cmds=context_cmds)
+            viol += v2
+            known_hits += k2
+            herr += h2
     finally:
         for d in dumper:
             d.close()
@@ -222,7 +247,9 @@ def main(a):
             "exhaustive": False,
             "sweep": {"plans": nsweep, "executed": sw["executed"], "exhaustive": sw["executed"] == nsweep,
                       "what": "every declared C function x 11 MSSM state recipes x canonical arguments (all valid indices); THDM: 2 bases x 12 Yukawa type values x 4 configs x 3 SM variants x 4 base points x all THDM functions; every field / array element of gm2calc_SM, gm2calc_THDM_mass_basis and gm2calc_THDM_gauge_basis x 18 special values (zeros, denormal, tiny, huge, non-finite, negative) and zero-initialised structs, each followed by construction and all THDM functions"},
-            "random_histories": rnd["executed"], "calls": counters.get("calls", 0), "ops": counters.get("ops", 0),
+            "random_histories": rnd["executed"],
+            "histories_repeated_with_immediate_address_reuse": reuse["executed"],
+            "ops_executed_on_other_client_threads": counters.get("ops_on_client_threads", 0), "calls": counters.get("calls", 0), "ops": counters.get("ops", 0),
             "simulated_time": {"unit": "C-API calls (logical clock of this engine)", "total": counters.get("calls", 0)},
             "runs_per_hour": int(nruns / max(wall - t_build, 1e-9) * 3600),
             "modes": {k[5:]: v for k, v in counters.items() if k.startswith("mode_")},
